@@ -402,6 +402,28 @@ static void part_lookup(void) {
 				vf_outcome("lookup:%s", have ? "found" : "absent");
 				KSI_Integer_free(qi);
 			}
+			/* by publication string: a string for (time, imprint) finds the record only if both agree with it */
+			for (q = 1; q <= 6; q++) for (i = 0; i < 2; i++) {
+				unsigned char h[RH_MAX_IMPRINT];
+				size_t hl = 0;
+				char str[200];
+				KSI_PublicationRecord *r = NULL;
+				int res, k, nmatch = 0, first = -1;
+				for (k = 0; k < len; k++) if (f.pub_time[k] == (uint64_t)q) { if (first < 0) first = k; nmatch++; }
+				if (nmatch > 1) continue;                 /* several records with one time: which one is compared is not specified */
+				if (i == 0 && first >= 0) { memcpy(h, f.pub_hash[first], f.pub_hash_len[first]); hl = f.pub_hash_len[first]; }
+				else hl = ref_fake_imprint(RH_SHA256, 900u + (unsigned)q, h);
+				ref_pubstring((uint64_t)q, h, hl, str, sizeof str);
+				res = KSI_PublicationsFile_getPublicationDataByPublicationString(pf, str, &r);
+				vf_count("impl_calls", 1);
+				if (first < 0) { if (res != KSI_OK || r != NULL) vf_fail("lookup-by-string", "times %s: string for time %d (not in the file): res 0x%x found=%d", name, q, res, r != NULL); }
+				else if (i == 0) {
+					if (res != KSI_OK || r == NULL) vf_fail("lookup-by-string", "times %s: genuine string of the record with time %d: res 0x%x found=%d", name, q, res, r != NULL);
+					else { KSI_PublicationData *pd = NULL; KSI_Integer *t = NULL; KSI_DataHash *dh = NULL; KSI_PublicationRecord_getPublishedData(r, &pd); KSI_PublicationData_getTime(pd, &t); KSI_PublicationData_getImprint(pd, &dh);
+						if (KSI_Integer_getUInt64(t) != (uint64_t)q || !ku_hash_eq(dh, h, hl)) vf_fail("lookup-by-string", "times %s: string of the record with time %d returned another record", name, q); }
+				} else if (res == KSI_OK && r != NULL) vf_fail("lookup-by-string", "times %s: a string with time %d but ANOTHER imprint was answered with the file's record", name, q);
+				vf_outcome("lookup-by-string:%s", first < 0 ? "time-absent" : i == 0 ? "genuine" : "other-imprint");
+			}
 			/* certificate ids: present, absent, prefix, extended */
 			{
 				static const int LENS[] = {4, 4, 4, 3, 5};
